@@ -1,4 +1,5 @@
 import RlModel.Lemmas.Crc
+import RlModel.Lemmas.Enc
 import RlModel.Gen.Consts
 /-!
 # C18 — corrupted column data is detected, not returned
@@ -161,6 +162,68 @@ theorem fixed_read_path_detects_every_time : DetectedEveryTime getBlockFixed := 
 
 example : readN getBlockFixed witnessBad 3 {} = [.error .checksum, .error .checksum, .error .checksum] := by
   decide +kernel
+
+/-! ## background compaction reads the corrupted block first
+
+`Compactor::run` calls `compact_table` for every table on every pass (1 s timer) and only logs a
+failure (`warn!("failed to compact")`); `compact_table` reads every block of the selected row-sets
+through the same `Column::get_block` / block cache as a query, writes the rows into a NEW row-set
+whose blocks get fresh checksums, and deletes the old row-sets. -/
+
+/-- `n` compaction passes over a one-block column file with the same cache: `some bytes` = a new
+row-set block was written (sealed with a fresh CRC), `none` = the pass failed and wrote nothing. -/
+def compactN (read : BlockCache → Bytes → Nat → Nat → Nat → BlockCache × Except ReadErr (Nat × Bytes))
+    (file : Bytes) : Nat → BlockCache → List (Option Bytes)
+  | 0, _ => []
+  | n + 1, c =>
+    let (c', r) := read c file 0 0 file.length
+    (match r with
+      | .ok (bt, payload) => some (sealBlock .crc32 bt payload)
+      | .error _ => none) :: compactN read file n c'
+
+/-- FULL statement: no number of compaction passes over a corrupted block ever writes a row-set. -/
+def NeverLaunders
+    (read : BlockCache → Bytes → Nat → Nat → Nat → BlockCache × Except ReadErr (Nat × Bytes)) : Prop :=
+  ∀ (file : Bytes) (n : Nat), isErr (openBlock true file) = true →
+    ∀ o ∈ compactN read file n {}, o = none
+
+/-- REFUTED for the read path that exists: the first pass fails (and is only logged) but leaves
+the corrupted block in the cache; the second pass reads it unverified and writes it into a new
+row-set **with a valid checksum** — the altered value is now permanent and survives a reopen. -/
+theorem compaction_launders_unsound : ¬ NeverLaunders getBlock := by
+  intro h
+  have := h witnessBad 2 (by decide +kernel) (some (sealBlock .crc32 0 [65, 0, 0, 0])) (by decide +kernel)
+  exact absurd this (by decide)
+
+example : compactN getBlock witnessBad 2 {} = [none, some (sealBlock .crc32 0 [65, 0, 0, 0])] := by
+  decide +kernel
+
+/-- whatever a compaction pass read — corrupted or not — the block it writes verifies on a fresh load -/
+theorem laundered_block_verifies (bt : Nat) (payload : Bytes) (hbt : bt < BLOCK_TYPE_COUNT) :
+    openBlock true (sealBlock .crc32 bt payload) = .ok (bt, payload) :=
+  openBlock_sealBlock .crc32 bt payload hbt
+
+/-- with the verify-then-publish read path, no number of passes launders a corrupted block -/
+theorem compaction_fixed_never_launders : NeverLaunders getBlockFixed := by
+  intro file n hbad
+  suffices ∀ c : BlockCache, c.get 0 = none → ∀ o ∈ compactN getBlockFixed file n c, o = none from
+    this {} rfl
+  induction n with
+  | zero => intro c _ o ho; simp [compactN] at ho
+  | succ n ih =>
+    intro c hc o ho
+    have hstep : getBlockFixed c file 0 0 file.length = (c, openBlock true file) := by
+      simp only [getBlockFixed, hc]
+      simp only [Nat.zero_add, Nat.lt_irrefl, ↓reduceIte, List.drop_zero, List.take_length]
+      cases ho' : openBlock true file with
+      | error e => rfl
+      | ok v => rw [ho'] at hbad; simp [isErr] at hbad
+    simp only [compactN, hstep, List.mem_cons] at ho
+    rcases ho with rfl | ho
+    · cases ho' : openBlock true file with
+      | error e => rfl
+      | ok v => rw [ho'] at hbad; simp [isErr] at hbad
+    · exact ih c hc o ho
 
 /-! ## the checksum type is read from the bytes it protects nothing of -/
 
